@@ -3,11 +3,7 @@ CONSTANTS
   MaxIdx = 4
   MaxTerm = 2
   MaxReady = 3
-  InstallSaveFirst = FALSE
+  InstallSaveFirst = TRUE
   SnapshotMustBeInWal = TRUE
   MaxCrash = 1
-INVARIANT TypeOK
-INVARIANT Acceptable
-INVARIANT NothingLost
-INVARIANT NothingInvented
 CHECK_DEADLOCK FALSE
